@@ -130,6 +130,9 @@ class ConstEval(object):
     def __init__(self, repo):
         self.repo = repo
         self.cache = {}
+        self.abstract_hook = None
+        self.computed = set()
+        self.consulted = set()  # (defining module, name) of every module-level constant a rule read
 
     # -------------------------------------------------------------------------------------
     def table(self, modname, name, rule="E2.table"):
@@ -144,11 +147,25 @@ class ConstEval(object):
         if r[0] != "value":
             raise AnalysisError(rule, "%s.%s is not a constant binding" % (modname, name), module=module)
         _, defmod, node = r
+        self.consulted.add((defmod.name, self._defname(defmod, node)))
         if len(defmod.assign_nodes.get(self._defname(defmod, node), [0])) > 1:
             raise AnalysisError(
                 rule, "table %s.%s is bound more than once" % (modname, name), node, defmod
             )
-        val = self.eval(defmod, node, rule)
+        try:
+            val = self.eval(defmod, node, rule)
+        except AnalysisError as e:
+            # a computed table (built by a helper, a loop, an update): fold the module's
+            # import-time initialisation abstractly and reify the result, when it is constant
+            val = None
+            if self.abstract_hook is not None:
+                try:
+                    val = self.abstract_hook(defmod, self._defname(defmod, node), node)
+                except AnalysisError:
+                    val = None
+            if val is None:
+                raise e
+            self.computed.add(key)
         self.cache[key] = val
         return val
 
@@ -227,6 +244,7 @@ class ConstEval(object):
                 return {"True": True, "False": False, "None": None}[node.id]
             r = self.repo.resolve_global(module, node.id)
             if r is not None and r[0] == "value":
+                self.consulted.add((r[1].name, self._defname(r[1], r[2])))
                 return self.eval(r[1], r[2], rule)
             raise AnalysisError(rule, "name %s is not a literal constant" % node.id, node, module)
         if isinstance(node, ast.UnaryOp) and isinstance(node.op, (ast.USub, ast.UAdd)):
@@ -269,6 +287,14 @@ class ConstEval(object):
             l.module = module
             l.elt_nodes = list(a.elt_nodes) + list(b.elt_nodes)
             return l
+        if isinstance(op, ast.Mult):
+            for l_, n_ in ((a, b), (b, a)):
+                if isinstance(l_, TList) and isinstance(n_, int) and not isinstance(n_, bool):
+                    l = TList(list(l_) * max(n_, 0))
+                    l.node = node
+                    l.module = module
+                    l.elt_nodes = list(l_.elt_nodes) * max(n_, 0)
+                    return l
         if is_num(a) and is_num(b):
             qa, qb = qof(a), qof(b)
             both_int = isinstance(a, int) and isinstance(b, int)
@@ -375,10 +401,10 @@ class ConstEval(object):
             if isinstance(a, int) and not isinstance(a, bool):
                 return Dec(Fraction(a), str(a), node)
             if isinstance(a, Flt):
-                # Decimal(0.56) is the binary expansion, not 0.56: inexact weight
-                raise AnalysisError(
-                    rule, "Decimal constructed from a float literal (inexact): %s" % short(node), node, module
-                )
+                # Decimal(0.56) is the exact binary expansion of the nearest double, not 0.56: fold
+                # the literal the way the compiler does and keep that exact rational, so the
+                # weight comparison against the specification reports the difference
+                return Dec(Fraction(float(a.q)), "Decimal(%s)" % (a.text if a.text is not None else a.q), node)
             raise AnalysisError(rule, "Decimal() of unsupported literal", node, module)
         if isinstance(fn, ast.Name) and ext is None:
             if fn.id == "float" and len(node.args) == 1:
